@@ -6,7 +6,7 @@ from common import *
 import procgen as pg
 
 PROP_MODULES = ["HvsrVerif.Props.C03"]
-BRIDGE_MODULES = ["HvsrVerif.Bridge.C03"]
+BRIDGE_MODULES = ["HvsrVerif.Bridge.C03", "HvsrVerif.Bridge.PyNyquist"]
 
 
 def gen_case(rng, i):
